@@ -195,6 +195,15 @@ func (g *gen) useStmt(vis []vinfo, objs *[]string) []sx.Stmt {
 			g.c.Count("ref:undefined")
 			return "nope"
 		}
+		if g.r.Intn(500) == 0 {
+			// a path through a scalar variable: undefined as well
+			for _, w := range ws {
+				if !strings.Contains(w.path, ".") {
+					g.c.Count("ref:path-through-scalar")
+					return w.path + ".k"
+				}
+			}
+		}
 		return g.caseVar(ws[g.r.Intn(len(ws))].path)
 	}
 	attr := func(cat string) (sx.Part, bool) {
